@@ -484,6 +484,14 @@ class Unit:
                     self.items.append({'label': 'masm::' + name, 'file': arg, 'kind': 'masm-lemma', 'sha': '', 'contracted': True})
                 self.e2_info = getattr(self, 'e2_info', []) + info
                 self.clauses += len(index)
+            elif cmd == 'gen-instr-enc':
+                import astgen
+                try:
+                    text, info = astgen.generate(self.repo)
+                except (astgen.AstGenError, ScanError) as e:
+                    raise WeaveError('astgen: %s' % e)
+                self.out.add(text, {'k': 'lit'})
+                self.trusted.append('astgen: opcode_val / enc_instr are derived mechanically from enum OpCode and the arms of Instruction::write_into (%d opcodes, %d arms); the decoder contract is the theorem' % (info['opcodes'], info['encoder_arms']))
             elif cmd == 'body-prelude':
                 self.body_prelude.append(arg)
             elif cmd == 'body-prelude-off':
